@@ -64,7 +64,7 @@ func init() {
 	})
 	reg(&PropSpec{
 		ID: "C14", Level: "other",
-		Explanation: seqLevelText + ". C14: every expression tree over From/FromSlice/TakeWhile/DropWhile/Filter/Map/Plus/Join up to the depth bound (2 quick; 3 thorough restricted by root kind jobs), leaves of 0..2 symbolic elements, predicates/mapping/flat-map selector uninterpreted (selector yields nil, one element or a 1-2 element slice); the documented drain loop and ForEach (callback failing at every position) are compared with a reference evaluator over plain slices; source slices compared before/after. Tree shapes are forked, all values and function behaviours are solver variables.",
+		Explanation: seqLevelText + ". C14: every expression tree over From/FromSlice/TakeWhile/DropWhile/Filter/Map/Plus/Join up to depth 2 (depth 3 did not finish within 45 minutes on this machine and is not registered; the thorough command explores the same trees), leaves of 0..2 symbolic elements, predicates/mapping/flat-map selector uninterpreted (selector yields nil, one element or a 1-2 element slice); the documented drain loop and ForEach (callback failing at every position) are compared with a reference evaluator over plain slices; source slices compared before/after. Tree shapes are forked, all values and function behaviours are solver variables.",
 		Assumptions: append([]string{"a sequence value is consumed by one consumer (no aliasing of one iterator in two places of a tree)", "trees deeper than the bound and leaves longer than 2 are outside the claim"}, commonAssumptions...),
 		Jobs: func(tier string) []JobSpec {
 			depth := 2
@@ -91,7 +91,7 @@ func init() {
 	})
 	reg(&PropSpec{
 		ID: "C15", Level: "other",
-		Explanation: seqLevelText + ". C15: every expression tree over pair.From/FromSeq/TakeWhile/DropWhile/Filter/Map/Plus/Join up to the depth bound (2 quick, 3 thorough), drained through the documented loop (Key and Value read at each position) and, one level shallower, through ForEach (failing at every position) and through ToSeq into a plain seq; FromSeq additionally over plain sequences of 0..3 elements with nil/1/2-pair selectors; keys and values are independent symbols, predicates/mappings/selectors are binary uninterpreted functions; reference is a list of pairs.",
+		Explanation: seqLevelText + ". C15: every expression tree over pair.From/FromSeq/TakeWhile/DropWhile/Filter/Map/Plus/Join up to depth 2 (depth 3 is not registered: it did not finish in the session), drained through the documented loop (Key and Value read at each position) and, one level shallower, through ForEach (failing at every position) and through ToSeq into a plain seq; FromSeq additionally over plain sequences of 0..3 elements with nil/1/2-pair selectors; keys and values are independent symbols, predicates/mappings/selectors are binary uninterpreted functions; reference is a list of pairs.",
 		Assumptions: append([]string{"a sequence value is consumed by one consumer", "trees deeper than the bound and FromSeq leaves over more than 2 elements are outside the claim"}, commonAssumptions...),
 		Jobs: func(tier string) []JobSpec {
 			depth := 2
@@ -128,13 +128,10 @@ func init() {
 	})
 	reg(&PropSpec{
 		ID: "C18", Level: "other",
-		Explanation: seqLevelText + ". C18: (a) inductive step: one Put/Get/Remove with symbolic key/value and an unconstrained Int63() from every valid skip-list shape with n<=2 (3 thorough) nodes of heights 1..3, symbolic strictly ascending keys, for three orders (ord.Int, reversed via ord.From, ContraMap); post-state must satisfy the representation invariant (level 0 = reference map in order, level l = sub-chain of nodes of height > l, forward pointers only, length) and answer like the reference map. (b) all histories of <=2 (3 thorough) operations from New() through the public API; (c) all Get/Remove histories of 4 (5 thorough) operations over the present keys or a fresh key from every shape of 2 (3) nodes. The float comparison float64(Int63())/2^63 < p[level] is replaced by an integer threshold comparison only after the equivalence has been proved by an SMT floating-point query (cvc5) per level.",
+		Explanation: seqLevelText + ". C18: (a) inductive step: one Put/Get/Remove with symbolic key/value and an unconstrained Int63() from every valid skip-list shape with n<=2 nodes of heights 1..3 (thorough: also 3 nodes for Get and Remove under ord.Int), symbolic strictly ascending keys, for three orders (ord.Int, reversed via ord.From, ContraMap); post-state must satisfy the representation invariant (level 0 = reference map in order, level l = sub-chain of nodes of height > l, forward pointers only, length) and answer like the reference map. (b) all histories of <=2 operations from New() through the public API; (c) all Get/Remove histories of 4 operations over the present keys or a fresh key from every shape of 2 nodes. The float comparison float64(Int63())/2^63 < p[level] is replaced by an integer threshold comparison only after the equivalence has been proved by an SMT floating-point query (cvc5) per level.",
 		Assumptions: append([]string{"math/rand.Source.Int63 returns any value in [0, 2^63)", "the printed form (fmt) is not examined; its content (level-0 order, forward pointers) is what is asserted", "lists of more than n+1 nodes / pre-state heights above 3 / string keys are outside the claim", "math.Pow/math.Log10 on constants are evaluated natively"}, commonAssumptions...),
 		Jobs: func(tier string) []JobSpec {
 			nmax, ops := 2, 2
-			if tier == "thorough" {
-				nmax, ops = 3, 3
-			}
 			var js []JobSpec
 			for o := 0; o < 3; o++ {
 				for n := 0; n <= nmax; n++ {
@@ -148,6 +145,13 @@ func init() {
 					for op0 := 0; op0 < 2; op0++ {
 						js = append(js, JobSpec{Group: "skiplist", Harness: "VSkipHistoryFrom", Mode: "seq", Params: map[string]int{"ord": o, "n": nmax, "maxh": 2, "ops": ops + 2, "puts": 0, "which0": w, "op0": op0}})
 					}
+				}
+			}
+			if tier == "thorough" {
+				// three-node shapes for Get and Remove (Put from three nodes and longer
+				// histories did not finish within 50 minutes and are not registered)
+				for _, op := range []int{1, 2} {
+					js = append(js, JobSpec{Group: "skiplist", Harness: "VSkipStep", Mode: "seq", Params: map[string]int{"ord": 0, "n": 3, "op": op, "maxh": 3}})
 				}
 			}
 			return js
@@ -241,13 +245,10 @@ func init() {
 	}
 	reg(&PropSpec{
 		ID: "C05", Level: "model_checking",
-		Explanation: bmcText + "C05: Map, Filter, Take (symbolic n in 0..N+1), TakeWhile, Partition (two independent consumers), Fold (uninterpreted non-commutative operation, symbolic identity), ForEach, Void, FMap (arrow emitting 0..2 values per input), Seq/ToSeq; producer goroutine (send all, then close) and pre-filled Seq input; input capacity 0..2 (3 thorough), input length 0..3 (4 thorough); no cancellation. Consumers assert the j-th received value against the list image; Final asserts counts, closure of every output, exit of all library goroutines.",
+		Explanation: bmcText + "C05: Map, Filter, Take (symbolic n in 0..N+1), TakeWhile, Partition (two independent consumers), Fold (uninterpreted non-commutative operation, symbolic identity), ForEach, Void, FMap (arrow emitting 0..2 values per input), Seq/ToSeq; producer goroutine (send all, then close) and pre-filled Seq input; input capacity 0..2, input length 0..3 (Partition 0..2, FMap 0..1; thorough: FMap with 2 inputs unbuffered); no cancellation. Consumers assert the j-th received value against the list image; Final asserts counts, closure of every output, exit of all library goroutines.",
 		Assumptions: bmcAssumptions,
 		Jobs: func(tier string) []JobSpec {
 			caps, ns := []int{0, 1, 2}, []int{0, 1, 2, 3}
-			if tier == "thorough" {
-				caps, ns = []int{0, 1, 2, 3}, []int{0, 1, 2, 3, 4}
-			}
 			hs := []string{"VMapPure", "VFilter", "VTake", "VTakeWhile", "VFold", "VForEach"}
 			js := stageJobs(hs, caps, ns, nil, 30)
 			js = append(js, stageJobs(hs, []int{0}, ns, map[string]int{"seq": 1}, 30)...)
@@ -259,6 +260,9 @@ func init() {
 			fns := hns[:len(hns)-1]
 			js = append(js, stageJobs([]string{"VFMap"}, caps, fns, nil, 40)...)
 			js = append(js, stageJobs([]string{"VFMap"}, []int{0}, hns, map[string]int{"seq": 1}, 40)...)
+			if tier == "thorough" { // FMap with two inputs (up to four emitted values), unbuffered
+				js = append(js, stageJobs([]string{"VFMap"}, []int{0}, []int{2}, nil, 48)...)
+			}
 			js = append(js, stageJobs([]string{"VSeqToSeq"}, []int{0}, ns, nil, 12)...)
 			return js
 		},
@@ -299,13 +303,10 @@ func init() {
 	})
 	reg(&PropSpec{
 		ID: "C08", Level: "model_checking",
-		Explanation: bmcText + "C08: pipe.New (the pump goroutine, newq/enq/deq/head/emit): sender of n symbolic values (optionally closing the send side), receiver present or absent, cancel at any step; queue nodes and the per-receive cells live in bounded arenas (symbolic slot indices). Checked: FIFO / exactly-once (j-th received value is x_j), nothing invented, the sender always gets all n sends through while the context is live (also with no receiver), after cancel every send completed before the cancel is delivered and the receive side closes, closing the send side is a clean end of stream (no panic). Bounds: capacity 0..2, n 1..3 (4 thorough).",
+		Explanation: bmcText + "C08: pipe.New (the pump goroutine, newq/enq/deq/head/emit): sender of n symbolic values (optionally closing the send side), receiver present or absent, cancel at any step; queue nodes and the per-receive cells live in bounded arenas (symbolic slot indices). Checked: FIFO / exactly-once (j-th received value is x_j), nothing invented, the sender always gets all n sends through while the context is live (also with no receiver), after cancel every send completed before the cancel is delivered and the receive side closes, closing the send side is a clean end of stream (no panic). Bounds: capacity 0..2, n 1..2 (capacity>=1 with n=2, cancel and a receiver only in the thorough tier: minutes per job).",
 		Assumptions: append([]string{"sync.Pool is modelled as always returning a fresh node (reuse of a recycled node is outside the claim)", "sends attempted after cancel are outside the statement (they may fail: the pump closes the send side)"}, bmcAssumptions...),
 		Jobs: func(tier string) []JobSpec {
 			ns := []int{1, 2}
-			if tier == "thorough" {
-				ns = []int{1, 2, 3}
-			}
 			var js []JobSpec
 			for _, c := range []int{0, 1, 2} {
 				for _, n := range ns {
@@ -332,8 +333,8 @@ func init() {
 			k, ke := 24, 14 // Emit under the lax clock is the expensive query
 			freqs := []int{5}
 			if tier == "thorough" {
-				k, ke = 36, 24
-				freqs = []int{1, 5}
+				k, ke = 36, 18
+				freqs = []int{5}
 			}
 			var js []JobSpec
 			for _, c := range []int{0, 1, 2} {
